@@ -254,6 +254,16 @@ pub fn check_c04(case: &RCase, log: &RunLog) -> Vec<Violation> {
     let mut out = vec![];
     // "lets the other side make progress": a future whose gate was opened (and whose waker was
     // called) must have been polled again before the runner goes quiet.
+    // "while it waits for ... a retry delay it lets the other side make progress instead of spinning":
+    // with nothing but the delay's timer able to make progress the runner must wait for that timer,
+    // not poll itself in a loop (only meaningful in the default build: the tracing build wakes itself
+    // on every poll by design)
+    if log.busy_wait_during_delay > 0 {
+        out.push(v(
+            "C04/busy-wait-during-retry-delay",
+            format!("while only a retry delay was outstanding (no gate pending, nothing running) the runner kept waking itself: {} busy rounds instead of waiting for its timer", log.busy_wait_during_delay),
+        ));
+    }
     if log.parser_polled_after_end > 0 {
         out.push(v(
             "C04/parser-polled-after-end",
@@ -572,8 +582,17 @@ pub fn refill_violation(case: &RCase, log: &RunLog, m: &Modelled) -> Option<(usi
                 continue;
             }
             let parsed = pf_idx.is_some_and(|p| p < n_ev);
-            let serial_clear = !serial_blocks(n_ev, q);
             let tripped = case.fail_fast() && ff.is_some_and(|f| f < n_ev);
+            // Nothing at all in flight although a scenario of whatever type has been handed over
+            // and not been started yet (it does start later): whatever else is waiting - e.g. a
+            // retry for its delay - the runner may not sit idle on it.
+            if parsed && !tripped && q.in_flight == 0 {
+                let idle_ready: Vec<&str> = case.scenarios.iter().map(|s| s.name.as_str()).filter(|s| first_started.get(s).is_some_and(|i| *i >= n_ev)).collect();
+                if !idle_ready.is_empty() {
+                    return Some((n_ev, format!("after a completion, at quiescent round {} nothing is in flight although the scenarios {idle_ready:?} are ready and unstarted", q.round)));
+                }
+            }
+            let serial_clear = !serial_blocks(n_ev, q);
             if !parsed || !serial_clear || tripped {
                 continue;
             }
